@@ -51,3 +51,16 @@ theorem sum_z (l : List (V3 ℝ)) : (sum l).z = (l.map (·.z)).sum := by
   | nil => simp [sum]
   | cons a l ih => simp [sum] at ih ⊢; rw [← ih]; rfl
 end V3
+
+theorem list_sum_map_mul (c : ℝ) {β : Type} (f : β → ℝ) (l : List β) :
+    (l.map fun x => c * f x).sum = c * (l.map f).sum := by
+  induction l with
+  | nil => simp
+  | cons a l ih => simp [ih, mul_add]
+
+theorem list_sum_map_lin (k : ℝ) {β : Type} (f g : β → ℝ) (l : List β) :
+    (l.map fun x => k * (f x + g x)).sum = k * ((l.map f).sum + (l.map g).sum) := by
+  induction l with
+  | nil => simp
+  | cons a l ih => simp only [List.map_cons, List.sum_cons, ih]; ring
+
